@@ -63,6 +63,16 @@ PROPS = {
             "rule": CHUNK_RULE + " -- chunk sizes 0, 1..5, 2^24-1, 2^24, 2^24+1, multiples of 2^24, 2^31-1, 2^31, 2^32-1; payloads 16777215/16777216 (thorough); "
                     "AMF0 strings/names 65534..70000 bytes and characters, empty names; session configs with chunk sizes 0, 1, 2, 3, 5, 2^31-1, 2^31",
             "explanation": "oracles: C19.refused_or_honoured (real serializer refuses exactly 0 / > 2^31-1 / > 16777215 bytes), C19.amf0_refused; hangs and allocation blow-ups are observations of the harness watchdog (20 s per case) and allocation cap"},
+    "C03": {"components": ["amf0", "msg", "chunk", "hs", "server", "client"],
+            "rule": "all entry points: AMF0 decoder (reference encodings, all markers, truncations, mutated/random bytes, adversarial counts), message decoder (all 256 type ids x boundary/"
+                    "well-formed/random bodies), chunk deserializer (library, foreign, mutated, random streams under partitions), handshake (malformed version bytes), server and client "
+                    "sessions (scripts, mutated/truncated/random peer bytes in every reachable workflow state); non-trivial = per component rule",
+            "explanation": "oracles: C03.never_panics / C03.never_hangs (harness catch_unwind with overflow-checks on, 20 s watchdog), C03.alloc_bounded (peak live bytes and largest request per case <= 16x case bytes + 20 MiB), "
+                           "C03.deep_nesting_no_abort (bounded nesting)"},
+    "C15": {"components": ["pair", "chunk"],
+            "rule": "pair: the same chunk stream (library, foreign incl. interleaved, mutated) or session script (server/client, clean/noisy/fuzzed, without window announcements) run under two different "
+                    "partitions (whole, byte-wise, fixed 2..1000, random); non-trivial = longer than 40 characters",
+            "explanation": "oracles C15.deserializer_partition_independent (same message sequence and same error) and C15.session_partition_independent (same results per operation modulo AMF0 object order; on an error both fail at the same operation with prefix-comparable deliveries)"},
     "C16": {"components": ["chunk"], "rule": CHUNK_RULE,
             "explanation": "oracle C06.foreign_stream restricted to interleaved streams (every second fde case)"},
     "C04": {"components": ["amf0"], "rule": AMF0_RULE,
